@@ -102,11 +102,14 @@ def html_to_nodes(
     for child in root:
         if child.name == "img":
             if not child.attrs.get("src"):
-                return [
+                # note, the nodes already created for earlier elements are kept
+                # (they may have registered names, which links can refer to)
+                nodes_list.append(
                     renderer.reporter.error(
                         "<img> missing 'src' attribute", line=line_number
                     )
-                ]
+                )
+                continue
             content = "\n".join(
                 _option_line(k, v)
                 for k, v in sorted(child.attrs.items())
